@@ -29,7 +29,7 @@ from vf.runner import Violation
 
 EPS = np.finfo(float).eps
 # Tolerance constants (HARNESS rule 2): calibrated on the unchanged tree, seeds 1-5 x 1500 cases; worst observed ratios
-# are given in eps units of the rounding scale `noise` = |M|(|a|+|a0|) + |J|'(|f| + D(|J||a|+|aref|)).
+# are given in eps units of the rounding scale `noise` = |M|(|a|+|a0|) + |J|'(|f| + D(|J|(|a|+|a0|)+|aref|)).
 K_GRAD = 2e4      # oracle gradient at a self-declared optimum: worst observed ~2e2 eps
 K_FORCE = 1e4     # efc_force vs oracle force law: worst observed ~1e2 eps of (|f| + D(|J||a|+|aref|))
 K_DATA = 1e3      # problem data (J, aref, R, a0) between storage / island variants: worst observed 0 (bit-identical) .. 4 eps
@@ -176,6 +176,9 @@ def main(ck):
           raise Violation('problem layout: %s' % errs, bucket='problem-data')
         Sc = trace_scale(P, m)
         lam_min = float(np.linalg.eigvalsh(P.M)[0])
+        Lc = np.linalg.cholesky(P.M)
+        Y = np.linalg.solve(Lc, P.J.T)            # M^-1/2 J'
+        condH = 1.0 + float(np.linalg.eigvalsh((Y * P.D) @ Y.T)[-1])   # Hessian bound M + J'DJ in the M metric
         nisland = int(d.nisland)
       else:
         # all variants must see the same documented problem
@@ -194,8 +197,8 @@ def main(ck):
             pass
           A, B = _V(), _V()
           for o, src, k in ((A, Pv, kv), (B, P, kp)):
-            o.J, o.aref, o.R, o.a0, o.M = src.J[k], src.aref[k], src.R[k], src.a0, src.M
-        for nm, x, y, sc in (('efc_J', A.J, B.J, np.abs(B.J).max(initial=0)), ('efc_aref', A.aref, B.aref, None),
+            o.J, o.aref, o.R, o.a0, o.M, o.aref_scale = src.J[k], src.aref[k], src.R[k], src.a0, src.M, src.aref_scale[k]
+        for nm, x, y, sc in (('efc_J', A.J, B.J, np.abs(B.J).max(initial=0)), ('efc_aref', A.aref, B.aref, A.aref_scale + B.aref_scale),
                              ('efc_R', A.R, B.R, None), ('qacc_smooth', A.a0, B.a0, np.abs(B.a0).max(initial=0)),
                              ('M', A.M, B.M, np.abs(B.M).max())):
           scale = (np.abs(x) + np.abs(y)) if sc is None else sc
@@ -219,7 +222,7 @@ def main(ck):
       Dm = Q.D.copy()
       for (i, dim, mu) in Q.ell:
         Dm[i:i + dim] = Q.D[i:i + dim].max() * max(1.0, float((1 / mu).max()), float(mu.max()))
-      fscale = np.abs(fO) + np.abs(fE) + Dm * (aJ @ np.abs(a) + np.abs(Q.aref))
+      fscale = np.abs(fO) + np.abs(fE) + Dm * (aJ @ (np.abs(a) + np.abs(Q.a0)) + np.abs(Q.aref))
       st_ = cons.solver_stats(lib, d)
       niter = np.array(d.solver_niter, dtype=np.int64)
       ni_used = 1 if not island or int(d.nisland) == 0 else int(d.nisland)
@@ -278,9 +281,7 @@ def main(ck):
         c_fin = Q.cost(a)
         c_s = Q.cost(Q.a0)
         c_start = min(c_s, Q.cost(a_ws)) if warm else c_s
-        da0 = a - Q.a0
-        cscale = 0.5 * np.abs(da0) @ (np.abs(Q.M) @ np.abs(da0)) + np.sum(np.abs(fO * y)) + 0.5 * np.sum(Q.R * fO * fO) + \
-            abs(c_start) + float(np.sum(Q.D * (aJ @ np.abs(Q.a0) + np.abs(Q.aref)) ** 2)) * EPS
+        cscale = Q.cost_scale(a) + Q.cost_scale(a_ws if warm else Q.a0) + Q.cost_scale(Q.a0)
         exc = (c_fin - c_start) / (EPS * cscale + 1e-300)
         stats['max_cost_eps'] = max(stats['max_cost_eps'], float(exc))
         if exc > K_COST:
@@ -294,20 +295,35 @@ def main(ck):
           # ellipsoid slice at the current normal force): a block sitting exactly at the tip with a normal row that asks
           # for no force (y_n >= 0) cannot be moved by either step although the conic optimum may be non-zero.  Such
           # blocks are masked (counted) and the fixed point is required of all other rows.
+          # Second exception (observed, reported): the friction sub-problem solvers mju_QCQP2/3/N give up and return zero
+          # friction when the mu-scaled friction block of A+R fails an ABSOLUTE 1e-10 determinant / pivot test; PGS then
+          # reports zero improvement with a non-optimal block.  Blocks below 1e-9 are masked (counted).
           mask = np.ones(Q.nefc, dtype=bool)
+          ARo = Q.J @ np.linalg.solve(Q.M, Q.J.T) + np.diag(Q.R)
           for (i, dim, mu) in Q.ell:
             if not np.any(fE[i:i + dim]) and y[i] >= 0 and np.any(fO[i:i + dim]):
               mask[i:i + dim] = False
               labels.add('pgs:elliptic-tip-fixed-point')
+              continue
+            Ac = ARo[i + 1:i + dim, i + 1:i + dim] * np.outer(mu, mu)
+            degenerate = (np.linalg.det(Ac) < 1e-9) if dim < 6 else (np.linalg.eigvalsh(Ac)[0] < 1e-9)
+            if degenerate:
+              mask[i:i + dim] = False
+              labels.add('pgs:qcqp-degenerate-block')
           kkt = float(np.linalg.norm((fE - fO)[mask]) / (np.linalg.norm(fE[mask]) + np.linalg.norm(fO[mask]) +
                                                            EPS * np.linalg.norm(fscale[mask]) * 1e3 + 1e-300))
-          stats['max_pgs_kkt'] = max(stats['max_pgs_kkt'], kkt)
           labels.add('pgs:stopped')
           claim = 'pgs-stopped'
-          if kkt > PGS_KKT:
-            raise Violation('%s: PGS stopped on tolerance after %s iterations but efc_force is not a fixed point of the '
-                            'documented force law: relative residual %.3g' % (tag, list(niter[:ni_used]), kkt),
-                            bucket='pgs-kkt')
+          if condH > 1e8:
+            # the map y -> f has slope D: with D |J|^2 / M > 1e8 the force is not determined to any useful accuracy by
+            # an acceleration that is only converged to a tolerance (HARNESS rule 2: label + skip)
+            labels.add('pgs:illconditioned-skip')
+          else:
+            stats['max_pgs_kkt'] = max(stats['max_pgs_kkt'], kkt)
+            if kkt > PGS_KKT:
+              raise Violation('%s: PGS stopped on tolerance after %s iterations but efc_force is not a fixed point of the '
+                              'documented force law: relative residual %.3g (cond %.3g)' % (tag, list(niter[:ni_used]), kkt,
+                                                                                          condH), bucket='pgs-kkt')
         else:
           labels.add('pgs:unconverged')
       sols.append((tag, a, P.delta(P.grad(a)), claim, nn))
@@ -330,8 +346,7 @@ def main(ck):
       # a variant that claims optimality must also be as cheap as the converged reference
       if ref_conv and claim == 'selfstop':
         c_e, c_r = P.cost(a), P.cost(a_ref)
-        f_r = P.force(P.jar(a_ref))
-        cs = abs(c_e) + abs(c_r) + np.sum(np.abs(f_r * P.jar(a_ref))) + 0.5 * np.sum(P.R * f_r * f_r)
+        cs = P.cost_scale(a) + P.cost_scale(a_ref)
         if c_e - c_r > K_COST * EPS * cs + 0.5 * d_ref ** 2:
           raise Violation('%s: cost %.17g above the reference optimum %.17g' % (tag, c_e, c_r), bucket='cost-vs-ref')
     zones = set(P.zones(a_ref))
